@@ -1,0 +1,25 @@
+//go:build verif
+
+// Contracts for the relayer-group management (property C16), comment-only.
+package types
+
+// the record handed out by VerifyNonProposal is read through pure getters
+//@ pure-iface github.com/goatnetwork/goat/x/relayer/types.IRelayer
+
+// event constructor: pure (verified: it writes no state; the event list itself is irrelevant)
+//@ func VoterChangedEvent
+//@ property C16
+//@ ensures len(result) >= 0
+//@ modifies nothing
+//@ loop 0 invariant true
+//@ loop 1 invariant true
+
+// Genesis validation: only the electing period and the BLS key LENGTH of every voter record are checked here
+// (see x/relayer/module/contracts_verif.go for what is missing w.r.t. the group invariant).
+//@ func (GenesisState).Validate
+//@ property C16
+//@ ensures period: err == nil ==> gs.Params.ElectingPeriod != 0
+//@ ensures key_sizes: err == nil ==> forall(i, 0, len(gs.Voters), len(gs.Voters[i].VoteKey) == goatcrypto.PubkeyLength)
+//@ modifies nothing
+//@ loop 0 invariant idx: -1 <= rangeindex && rangeindex < len(gs.Voters)
+//@ loop 0 invariant done: forall(i, 0, rangeindex + 1, len(gs.Voters[i].VoteKey) == goatcrypto.PubkeyLength)
